@@ -288,11 +288,10 @@ def collapse (g : List SCmd) : List Nat → List Cmd → Nat → Except Err (Lis
     match ms with
     | [] => .error .malformed
     | m :: ms' =>
-      let lo := if l < r then l else r
-      let hi := if l < r then r else l
-      if m.parents ≠ [lo, hi] ∨ lo = hi ∨ hasId g m.id then .error .malformed
+      -- `MergeIds::new` orders the pair by id; equal ids cannot be merged
+      if m.parents ≠ [min l r, max l r] ∨ l = r ∨ hasId g m.id then .error .malformed
       else
-        match braidFacts g [lo, hi] with
+        match braidFacts g [min l r, max l r] with
         | .error e => .error e
         | .ok (s, _) => collapse (g ++ [⟨m, s⟩]) (q ++ [m.id]) ms' fuel
 
